@@ -1,13 +1,13 @@
 package crlrepository
 
 import (
+	"go.uber.org/zap"
 	"encoding/asn1"
 	"crypto/x509"
 	"crypto/x509/pkix"
 	"hash"
 	"math/big"
 	"net/url"
-	"sync"
 
 	"github.com/gr33nbl00d/caddy-revocation-validator/config"
 	"github.com/gr33nbl00d/caddy-revocation-validator/core"
@@ -224,13 +224,27 @@ func newWorld(disk bool, fetch config.CRLFetchMode, strict bool, sigMode config.
 }
 
 func (w *world) newRepo() *Repository {
-	var f crlstore.Factory
+	// the repository is built by its REAL constructor (whatever it initialises stays initialised); only the
+	// two environment-facing parts are then exchanged: the serializer inside the store factory (encoding/asn1
+	// is reflection based) and the CRL reader (the streaming reader has its own harnesses)
+	st := crlstore.Map
 	if w.disk {
-		f = crlstore.LevelDbStoreFactory{Serializer: crlstore.VerifSerializer{}, BasePath: "/work"}
-	} else {
-		f = crlstore.MapStoreFactory{Serializer: crlstore.VerifSerializer{}}
+		st = crlstore.LevelDB
 	}
-	return &Repository{f, &sync.RWMutex{}, make(map[string]*Entry), w.cfg, nil, crlloader.DefaultCRLLoaderFactory{}, stubReader{}}
+	err, r := NewCRLRepository(zap.NewNop(), w.cfg, st)
+	verifrt.Assume(err == nil)
+	switch f := r.Factory.(type) {
+	case crlstore.LevelDbStoreFactory:
+		f.Serializer = crlstore.VerifSerializer{}
+		r.Factory = f
+	case crlstore.MapStoreFactory:
+		f.Serializer = crlstore.VerifSerializer{}
+		r.Factory = f
+	default:
+		verifrt.Assert(false, "harness: unknown store factory type")
+	}
+	r.crlReader = stubReader{}
+	return r
 }
 
 func cert(issuer string, serial *big.Int, cdp ...string) *x509.Certificate {
